@@ -66,6 +66,9 @@ def run_tlc(module, cfg, env=None, workers=16, extra=(), timeout=3600, xmx="4g",
         jopts.append("-Dnum.tol=%s" % tol)
     if deque:
         jopts.append("-Dtlc2.tool.queue.IStateQueue=StateDeque")
+    jtmp = meta + "_tmp"           # TLC creates a temporary directory per run: keep it inside the scratch area, not in /tmp
+    os.makedirs(jtmp, exist_ok=True)
+    jopts.append("-Djava.io.tmpdir=" + jtmp)
     cmd = ["java"] + jopts + ["-cp", JAR, "tlc2.TLC", "-workers", str(workers), "-metadir", meta,
                                "-noGenerateSpecTE", "-config", cfg] + list(extra) + [module]
     t0 = time.time()
@@ -76,6 +79,7 @@ def run_tlc(module, cfg, env=None, workers=16, extra=(), timeout=3600, xmx="4g",
         out = (ex.stdout or b"").decode() if isinstance(ex.stdout, bytes) else (ex.stdout or "")
         rc = -9
     shutil.rmtree(meta, ignore_errors=True)
+    shutil.rmtree(jtmp, ignore_errors=True)
     res = {"out": out, "rc": rc, "wall": time.time() - t0, "generated": 0, "distinct": 0, "depth": 0,
            "cmd": " ".join(cmd[cmd.index("tlc2.TLC"):])}
     m = None
